@@ -377,6 +377,53 @@ func checkC06(c *Ctx) {
 		ins = append(ins, nil)
 		shapes = append(shapes, "rand/"+featureKey(g.features))
 	}
+	// definitions written inside a branch / loop body / handler are declarations of that block:
+	// usable in it (after hoisting, like at body level), gone when it ends
+	{
+		type hp struct{ name, src, want string }
+		def := "如何加一？\n\t\t输入数\n\t\t输出 数 + 1\n"
+		hps := []hp{
+			{"def-in-branch/used-inside", "如果 真：\n\t" + def + "\t输出（加一：1）\n输出 0\n", "num(2)"},
+			{"def-in-branch/used-before-its-line", "如果 真：\n\t令果 = （加一：1）\n\t" + def + "\t输出 果\n输出 0\n", "num(2)"},
+			{"def-in-branch/gone-after", "如果 真：\n\t" + def + "\t令果 = （加一：1）\n输出（加一：5）\n", "error:42"},
+			{"def-in-loop/each-pass", "令和 = 0\n以项遍历【1，2，3】：\n\t" + def + "\t和 = 和 + （加一：项）\n输出 和\n", "num(9)"},
+			{"def-in-while/each-pass", "令次 = 0\n每当 次 < 3：\n\t" + def + "\t次 = （加一：次）\n输出 次\n", "num(3)"},
+			{"type-in-branch/used-inside", "如果 真：\n\t定义猫：\n\t\t其名 = “咪”\n\t输出（新建猫）之名\n输出 0\n", `text("咪")`},
+			{"type-in-branch/gone-after", "如果 真：\n\t定义猫：\n\t\t其名 = “咪”\n\t令物 = （新建猫）\n输出（新建猫）之名\n", "error:42"},
+			{"def-in-handler/used-inside", "令甲 = 1 / 0\n\n拦截异常：\n\t" + def + "\t输出（加一：1）\n", "num(2)"},
+			{"def-in-method-branch/used-inside", "如何外？\n\t如果 真：\n\t\t如何内？\n\t\t\t输出 5\n\t\t输出（内）\n\t输出 0\n输出【（外），（外）】\n", "list[num(5),num(5)]"},
+			{"def-in-branch/not-exported", "", ""},
+		}
+		hreqs := []Req{}
+		idx := []int{}
+		for k, h := range hps {
+			if h.src == "" {
+				continue
+			}
+			hreqs = append(hreqs, execReq(h.src))
+			idx = append(idx, k)
+		}
+		// the module variant: a definition inside a branch of a module body is not exported
+		hreqs = append(hreqs, Req{Op: "exec", Main: "main.zn", EvalBudget: 20000, ParseBudget: 20000, Files: []File{
+			{Path: "main.zn", Data: widen([]byte("导入“甲”\n输出（加一：1）\n"))},
+			{Path: "甲.zn", Data: widen([]byte("如果 真：\n\t" + def + "\t令果 = （加一：1）\n令旁 = 1\n"))}}})
+		idx = append(idx, len(hps)-1)
+		hps[len(hps)-1].want = "error:42"
+		c.runBatches(hreqs, 10, func(r int, req *Req, resp *Resp) {
+			c.Eval()
+			h := hps[idx[r]]
+			c.Nontrivial("hand|" + h.name + "|" + resp.Kind)
+			got := resp.Kind
+			if resp.Kind == "value" && resp.Val != nil {
+				got = resp.Val.String()
+			} else if resp.Kind == "error" && resp.Err != nil {
+				got = fmt.Sprintf("error:%d", resp.Err.Code)
+			}
+			if got != h.want {
+				c.Violation("hand:"+h.name, fmt.Sprintf("%s: outcome %s %v, expected %s\nprogram:\n%s", h.name, got, resp.Err, h.want, h.src), map[string]interface{}{"req": req})
+			}
+		})
+	}
 	c.runRefCases("scope", progs, ins, shapes, nil, func(i int, src string, ref zr.Result, resp *Resp) {
 		quiescent(c, "scope", shapes[i], src, resp)
 	})
